@@ -2,7 +2,7 @@ import Driver.Util
 import Model.Cache
 /-! driver ops of C17 (prefix `c17.`)
 
-`c17.lru <intended 0|1> <max_size> <t0> op…`   → `ok tok…`  one token per op: `out|ring|max|H/M`
+`c17.lru <max_size> <t0> op…`   → `ok tok…`  one token per op: `out|ring|max|H/M`
 `c17.cache <interval> <t0> op…`                → `ok tok…`  one token per op: `out|data(sorted)|next_cleaning|H/M`
 
 ops: `g<k>` get, `p<k>:<v>:<exp>` put, `f<k>` flush(key), `F` flush(), `s<int>` set_max_size, `a<dt>` clock += dt,
@@ -63,12 +63,12 @@ def parseOp17q (s : String) : Option (Op × Bool) :=
   | '!' :: r => (parseOp17 (String.ofList r.reverse)).map (·, true)
   | _ => (parseOp17 s).map (·, false)
 
-def traceL (intended : Bool) : LState → List (Op × Bool) → List String
+def traceL : LState → List (Op × Bool) → List String
   | _, [] => []
   | s, (op, q) :: rest =>
-    let r := stepL intended s op
+    let r := stepL s op
     (if q then s!"{showOut17 r.2}|?"
-     else s!"{showOut17 r.2}|{showRing r.1.ring}|{r.1.maxSize}|{r.1.hits}/{r.1.misses}") :: traceL intended r.1 rest
+     else s!"{showOut17 r.2}|{showRing r.1.ring}|{r.1.maxSize}|{r.1.hits}/{r.1.misses}") :: traceL r.1 rest
 
 def traceC : CState → List (Op × Bool) → List String
   | _, [] => []
@@ -78,12 +78,11 @@ def traceC : CState → List (Op × Bool) → List String
      else s!"{showOut17 r.2}|{showData r.1.data}|{r.1.nextCleaning}|{r.1.hits}/{r.1.misses}") :: traceC r.1 rest
 
 def handleC17 : List String → Option String
-  | "c17.lru" :: intended :: mx :: t0 :: ops => do
-    let i ← parseBool intended
+  | "c17.lru" :: mx :: t0 :: ops => do
     let mx ← mx.toInt?
     let t0 ← t0.toNat?
     let ops ← ops.mapM parseOp17q
-    some (" ".intercalate ("ok" :: traceL i (initL mx t0) ops))
+    some (" ".intercalate ("ok" :: traceL (initL mx t0) ops))
   | "c17.cache" :: interval :: t0 :: ops => do
     let iv ← interval.toNat?
     let t0 ← t0.toNat?
